@@ -63,37 +63,106 @@ def version_models(bb, t, args, st):
     return None
 
 
+def te_parser(facts, cte):
+    """the client-preference token parser, bound by role: the function of the chooser's file that turns one &str into a TransferEncoding
+    (`Result<TransferEncoding, _>` / `Option<TransferEncoding>`)"""
+    out = []
+    for k, g in sorted(facts.local_fns.items()):
+        if g.file != cte.file or "{closure" in k or g.argc != 1 or g.locals[1]["ty"] != "&str":
+            continue
+        if re.match(r"^std::(result::Result|option::Option)<%s\b" % re.escape(TE), g.locals[0]["ty"]):
+            out.append(k)
+    if len(out) > 1:
+        # the one the others are built on (a helper that walks the TE value calls the token parser, not the other way round)
+        def reach_of(k):
+            seen, work = set(), [k]
+            while work:
+                x = work.pop()
+                if x in seen:
+                    continue
+                seen.add(x)
+                work += [c for c in facts.local_fns if c.startswith(x + "::{closure")]
+                g = facts.fns.get(x)
+                if g is not None and g.rec.get("local"):
+                    work += [call_name(t) for bb, t in g.calls() if call_name(t) in facts.local_fns]
+            return seen
+        reach = {k: reach_of(k) for k in out}
+        out = [k for k in out if not any(o != k and o in reach[k] for o in out)]
+    if len(out) != 1:
+        raise CheckerError("C05: the function parsing one transfer-coding token was not found (%s)" % out)
+    return out[0]
+
+
+class ChooserModel:
+    def __init__(self, facts):
+        import response_rules as RSP, inline
+        import queue_rules as Q
+        self.facts = facts
+        M = self.M = RSP.resp_model(facts)
+        cte = self.cte = M.chooser
+        same = lambda d: facts.fns[d].rec.get("local") and facts.fns[d].file == cte.file
+        self.te_parse = te_parser(facts, cte)
+        te_parse = self.te_parse
+        f = self.f = inline.inlined(facts, cte.id, stop=lambda d: facts.fns[d].rec.get("local") and (not same(d) or d == te_parse), extern_ok=Q.std_small)
+        # parameters by type: status (StatusCode), request headers (&[Header]), version (&HTTPVersion), entity length (&Option<usize>), bools, threshold (usize)
+        P = self.P = {}
+        for i in range(1, f.argc + 1):
+            ty = f.locals[i]["ty"]
+            if ty == STATUS:
+                P["status"] = i
+            elif ty.startswith("&[common::Header"):
+                P["headers"] = i
+            elif ty == "&" + HV or ty == HV:
+                P["version"] = i
+            elif "Option<usize>" in ty:
+                P["length"] = i
+            elif ty == "usize":
+                P["threshold"] = i
+            elif ty == "bool":
+                P.setdefault("bools", []).append(i)
+        if not {"status", "version", "length", "threshold"} <= set(P):
+            raise CheckerError("C05.1: parameters of the coding chooser (%s)" % sorted(P))
+
+    def outcomes(self, ver, stt, ln, thr):
+        """the codings the chooser can return for this input: 'Identity' / 'Chunked' / 'client' (what the TE header asked for)"""
+        import absint
+        f, P = self.f, self.P
+        st = symex.Sym(f)
+        st.write_key((P["status"],), ("agg", STATUS, "StatusCode", {"0": ("const", stt, "%d_u16" % stt, None)}))
+        vkey = (P["version"], "*") if f.locals[P["version"]]["ty"].startswith("&") else (P["version"],)
+        st.write_key(vkey, hv(*ver))
+        lkey = (P["length"], "*") if f.locals[P["length"]]["ty"].startswith("&") else (P["length"],)
+        st.write_key(lkey, ("none",) if ln is None else ("some", ("const", ln, "%d_usize" % ln, None)))
+        st.write_key((P["threshold"],), ("const", thr, "%d_usize" % thr, None))
+        for bi in P.get("bools", []):
+            st.write_key((bi,), ("const", False, "false", None))
+        ps = [p for p in absint.explore(f, 0, st, on_call=version_models, max_paths=3000, max_visits=2) if p.end[0] == "return"]
+        outs = set()
+        for p in ps:
+            r = p.ret()
+            if r[0] == "agg" and r[1] == TE and not any(x and x[0] in ("call", "payload", "refined", "downcast", "field") for x in absint.walk_terms(r)):
+                outs.add(r[2])
+            else:
+                outs.add("client")
+        return outs, len(ps)
+
+
+def chooser_model(facts):
+    if not hasattr(facts, "_chooser_model"):
+        facts._chooser_model = ChooserModel(facts)
+    return facts._chooser_model
+
+
 def run(ctx):
     facts = ctx.facts
     roles.bind(facts)
     import response_rules as RSP, inline, absint
     import queue_rules as Q
-    M = RSP.resp_model(facts)
-    cte = M.chooser
+    CM = chooser_model(facts)
+    M, cte, f, P, te_parse = CM.M, CM.cte, CM.f, CM.P, CM.te_parse
     raw_print = M.rp
-    same = lambda d: facts.fns[d].rec.get("local") and facts.fns[d].file == cte.file
-    te_parse = facts.trait_method(T_FROMSTR, TE, "from_str")
-    f = inline.inlined(facts, cte.id, stop=lambda d: facts.fns[d].rec.get("local") and (not same(d) or d == te_parse), extern_ok=Q.std_small)
     ctx.touch(f)
     where = "%s:%d" % (cte.file, cte.line)
-
-    # parameters by type: status (StatusCode), request headers (&[Header]), version (&HTTPVersion), entity length (&Option<usize>), bools, threshold (usize)
-    P = {}
-    for i in range(1, f.argc + 1):
-        ty = f.locals[i]["ty"]
-        if ty == STATUS:
-            P["status"] = i
-        elif ty.startswith("&[common::Header"):
-            P["headers"] = i
-        elif ty == "&" + HV or ty == HV:
-            P["version"] = i
-        elif "Option<usize>" in ty:
-            P["length"] = i
-        elif ty == "usize":
-            P["threshold"] = i
-        elif ty == "bool":
-            P.setdefault("bools", []).append(i)
-    ctx.require({"status", "version", "length", "threshold"} <= set(P), "C05.1: parameters of the coding chooser (%s)" % sorted(P))
 
     # ---- C05.1 decision table
     lookup = set()
@@ -118,25 +187,9 @@ def run(ctx):
     for thr in thr_values:
         lengths = [None] + sorted({0, max(thr - 1, 0), thr, thr + 1})
         for ver, stt, ln in itertools.product(versions, statuses, lengths):
-            st = symex.Sym(f)
-            st.write_key((P["status"],), ("agg", STATUS, "StatusCode", {"0": ("const", stt, "%d_u16" % stt, None)}))
-            vkey = (P["version"], "*") if f.locals[P["version"]]["ty"].startswith("&") else (P["version"],)
-            st.write_key(vkey, hv(*ver))
-            lkey = (P["length"], "*") if f.locals[P["length"]]["ty"].startswith("&") else (P["length"],)
-            st.write_key(lkey, ("none",) if ln is None else ("some", ("const", ln, "%d_usize" % ln, None)))
-            st.write_key((P["threshold"],), ("const", thr, "%d_usize" % thr, None))
-            for bi in P.get("bools", []):
-                st.write_key((bi,), ("const", False, "false", None))
-            ps = [p for p in absint.explore(f, 0, st, on_call=version_models, max_paths=3000, max_visits=2) if p.end[0] == "return"]
+            outs, npaths = CM.outcomes(ver, stt, ln, thr)
             rows += 1
-            ctx.paths += len(ps)
-            outs = set()
-            for p in ps:
-                r = p.ret()
-                if r[0] == "agg" and r[1] == TE and not any(x and x[0] in ("call", "payload", "refined", "downcast", "field") for x in absint.walk_terms(r)):
-                    outs.add(r[2])
-                else:
-                    outs.add("client")
+            ctx.paths += npaths
             if ver <= (1, 0) or stt < 200 or stt == 204:
                 want = {"Identity"}
                 ok = outs == want
@@ -281,7 +334,7 @@ def run(ctx):
             continue
         o = p.origin(bs[0])
         if o[0] == "binop" and o[1] == "Le" and o[3][0] == "const" and o[3][1] == ("float", 0.0) and "1" in origin_fields(o[2]):
-            fs = set(p.call_blocks(lambda t: call_matches(t, r"TransferEncoding as std::str::FromStr>::from_str$")))
+            fs = set(p.call_blocks(lambda t: (call_name(t) == te_parse)))
             nx = set(p.call_blocks(lambda t: call_matches(t, r"Iter<.*> as std::iter::Iterator>::next$")))
             r = p.reach([bs[1]], blocked=nx, unwind=False)
             skip_ok = not (r & fs) and not any(x in r for x in p.returns())
@@ -297,7 +350,7 @@ def run(ctx):
                             skip_ok = True
     ctx.ob("C05.4", "%s|skip-q-zero" % p.id, "an entry with q <= 0 (or a q that is not a number) is dropped before the codings are tried", skip_ok, "%s:%d" % (p.file, p.line))
     # first accepted coding is returned
-    fs = p.call_blocks(lambda t: call_matches(t, r"TransferEncoding as std::str::FromStr>::from_str$"))
+    fs = p.call_blocks(lambda t: (call_name(t) == te_parse))
     ok = len(fs) == 1
     if ok:
         rs = shared.result_switch(p, fs[0])
@@ -311,13 +364,13 @@ def run(ctx):
             if call_matches(t, r"Iterator>?::find_map(::<|$)") and len(t["args"]) > 1:
                 co = p.origin(t["args"][1])
                 cf = facts.fns.get(co[1]) if co[0] == "agg" else None
-                if cf is not None and cf.call_blocks(lambda t2: call_matches(t2, r"TransferEncoding as std::str::FromStr>::from_str$")):
+                if cf is not None and cf.call_blocks(lambda t2: (call_name(t2) == te_parse)):
                     recv = p.origin(t["args"][0])
                     if not origin_has_call(recv, r"::rev$"):
                         o0 = cf.origin_place({"l": 0, "p": []})
-                        ok = origin_has_call(o0, r"Result::<T, E>::ok$") or (o0[0] == "call" and o0[1].endswith("from_str"))
+                        ok = (origin_has_call(o0, r"Result::<T, E>::ok$") and origin_has_call(o0, re.escape(te_parse) + "$")) or (o0[0] == "call" and o0[1] == te_parse)
     ctx.ob("C05.4", "%s|first-supported-wins" % p.id, "the first coding (in preference order) that is supported is the answer", ok, "%s:%d" % (p.file, p.line))
-    tefs = method(facts, T_FROMSTR, TE, "from_str")
+    tefs = facts.fn(te_parse)
     tbl = {}
     for bb, t in tefs.calls():
         if call_matches(t, r"eq_ignore_ascii_case$") and t.get("target") is not None:
@@ -330,6 +383,8 @@ def run(ctx):
                     v = st.read_key((0,))
                     if v[0] == "agg" and v[2] == "Ok":
                         vs.add(v[3]["0"][2])
+                    elif v[0] == "some" and v[1][0] == "agg":
+                        vs.add(v[1][2])
                 tbl[lit[0]] = vs
     ok = tbl == {"identity": {"Identity"}, "chunked": {"Chunked"}}
     ctx.ob("C05.4", "%s|coding-literals" % tefs.id, "exactly `identity` and `chunked` (any letter case) are supported and map to the matching variant", ok, "%s:%d" % (tefs.file, tefs.line), str(tbl))
